@@ -43,7 +43,8 @@ Theorem C15_tower_refused_in_skipped_part : forall cf L fuel rest,
 Proof. exact tower_too_deep_skip. Qed.
 Print Assumptions C15_tower_refused_in_skipped_part.
 
-(* no TooDeep when the text's depth is within the limit *)
+(* no TooDeep when the text's depth is within the limit (a text of the grammar: Spec/Rfc8259.v, strings and keys of
+   at most 65535 decoded bytes) *)
 Theorem C15_within_limit_accepted : forall cf, decode_unicode cf = true ->
   forall d i v, jtextD (num_den cf) d i v -> forall L, d <= L ->
   j_err (json_run cf None L i) = Ok /\ j_doc (json_run cf None L i) = v.
